@@ -60,6 +60,8 @@ Definition type_matches (pkg : bytes) (t : otype) (ty : string) : bool :=
   | TObject p n => is_name (full p n)
   | TOneof p n => is_name (full p n)
   | TEnum p n => is_name (full p n)
+  | TExt tn _ => bytes_eqb tn (bs ty)
+  | TMap _ => false
   end.
 Definition field_documented (f : string * string * string * N) : bool :=
   match f with (msg, ty, name, num) =>
